@@ -89,8 +89,12 @@ L1Bool == UNION {{Bool(m, s, n, k) : k \in (IF s = <<>> THEN {0} ELSE SMins)} :
                     m \in Opt(Leaves), s \in Opt(Leaves), n \in Opt(Leaves)}
             \ {Bool(<<>>, <<>>, <<>>, 0)}
 L1BoolMM == {Bool(s, <<>>, <<z>>, 0) : s \in PairsOf(0), z \in Leaves}
+\* a must group of two with a should clause from anywhere (the should clause
+\* must not drag the must conjunction out of its element)
+L1BoolMS == {Bool(s, <<z>>, <<>>, k) : s \in PairsOf(0), z \in Leaves, k \in SMins}
+L1BoolSS == {Bool(m, s, <<>>, k) : m \in Opt(Leaves), s \in PairsOf(0), k \in Mins}
 
-Level1 == L1Conj \cup L1Disj \cup L1Bool \cup L1BoolMM
+Level1 == L1Conj \cup L1Disj \cup L1Bool \cup L1BoolMM \cup L1BoolMS \cup L1BoolSS
 
 \* a compound as a clause of a larger query
 InnerC == {Conj(s) : s \in PairsOf(1)}
